@@ -689,7 +689,11 @@ func xrefJob(data []byte, c decCfg) string {
 			if s == nil {
 				ts = append(ts, "-")
 			} else {
-				ts = append(ts, fmt.Sprintf("%c:%d:%d", boolc(s.ReadButNotParsed()), len(s.IVs), len(s.SubSamples)))
+				st := fmt.Sprintf("%c:%d:%d", boolc(s.ReadButNotParsed()), len(s.IVs), len(s.SubSamples))
+				for _, spec := range []string{"", "senc:1", "all:2,senc:0", "all:1"} {
+					st += ":" + projectClass(boxInfoLines(n, s, spec))
+				}
+				ts = append(ts, st)
 			}
 		}
 	}
@@ -697,7 +701,7 @@ func xrefJob(data []byte, c decCfg) string {
 	return res + postOps(data, c, infoLevelsX)
 }
 
-var infoLevelsX = []string{"", "all:1", "all:2", "senc:1", "senc:2,sbgp:1,sgpd:2,saio:1,saiz:1,trun:1", "trun:2,senc:1"}
+var infoLevelsX = []string{"", "all:1", "all:2", "senc:2,sbgp:1,sgpd:2,saio:1,saiz:1,trun:1,stsc:1,sidx:1"}
 
 // postOps: Info at the given levels and both encoders in both modes, each on a fresh decode
 func postOps(data []byte, c decCfg, levels []string) string {
@@ -1211,7 +1215,8 @@ func searchXref(r *hx.Rng, n int, jobs *[]job, descs *[]string) {
 			prio = append(prio, rest[j])
 		}
 		for _, m := range prio {
-			for _, cfg := range []string{"RN0", "SN0", xCfgs[2+k%4]} {
+			// both paths alternate under the default options, plus one rotating other configuration
+			for _, cfg := range []string{xCfgs[k%2], xCfgs[2+k%4]} {
 				*jobs = append(*jobs, job{kind: "Y", cfg: cfg, gen: m.gen})
 				*descs = append(*descs, m.desc+" cfg="+cfg)
 			}
